@@ -1525,12 +1525,15 @@ class TOTP:
 
     def _to_uri_params(self):
         """return list of (key, param) entries for URI"""
+        # NOTE: a parameter may only be omitted if the format default (sha1 / 6 / 30) is also
+        #       what a class customized via .using() would assume when loading it back.
+        cls = type(self)
         args = [("secret", self.base32_key)]
-        if self.alg != "sha1":
+        if self.alg != "sha1" or cls.alg != "sha1":
             args.append(("algorithm", self.alg.upper()))
-        if self.digits != 6:
+        if self.digits != 6 or cls.digits != 6:
             args.append(("digits", str(self.digits)))
-        if self.period != 30:
+        if self.period != 30 or cls.period != 30:
             args.append(("period", str(self.period)))
         return args
 
@@ -1648,12 +1651,15 @@ class TOTP:
         """
         # NOTE: 'type' may seem redundant, but using it so code can try to
         #       detect that this *is* a TOTP json string / dict.
+        # NOTE: a field may only be omitted if the format default (sha1 / 6 / 30) is also
+        #       what a class customized via .using() would assume when loading it back.
+        cls = type(self)
         state = dict(v=self.json_version, type="totp")
-        if self.alg != "sha1":
+        if self.alg != "sha1" or cls.alg != "sha1":
             state["alg"] = self.alg
-        if self.digits != 6:
+        if self.digits != 6 or cls.digits != 6:
             state["digits"] = self.digits
-        if self.period != 30:
+        if self.period != 30 or cls.period != 30:
             state["period"] = self.period
         # XXX: should we include label as part of json format?
         if self.label:
